@@ -47,7 +47,7 @@ def generate(rng, tier):
     env.pop("_pat", None)
     nested = []
     if not flat and rng.random() < 0.4:
-        nested = scen.subroots_of(tree, rng, 2)
+        nested = [n for n in scen.subroots_of(tree, rng, 2) if not (pat_args and "cache" in n.split("/"))]
         for sub in nested:
             # the same effective patterns in every generation of every history (the statement's "identical to what
             # every generation recorded")
